@@ -29,6 +29,7 @@ type Obligation struct {
 	Values []string // terms to ask a model for
 	Ctx    *FnCtx
 	Label  string
+	Relaxed bool // a model exists only for the query without quantified assumptions
 }
 
 type FnCtx struct {
@@ -598,7 +599,7 @@ func (fr *Frame) enterLoop(lp *Loop, ins []edgeIn) (*State, string) {
 	s0 := c.mergeStates(inc)
 	fr.checkInvariants(lp, s0, r0, "inv-init", nil)
 	s1 := s0.clone()
-	eff := c.eng.loopEffects(fr.fn, lp)
+	eff := c.eng.loopEffects(fr.fn, lp, fr)
 	preAlloc := c.heapGet(s0, "alloc", allocSort)
 	if eff.all {
 		c.havocAllBut(s1, eff.preserved(), eff.heaps)
@@ -670,7 +671,7 @@ func (fr *Frame) enterLoop(lp *Loop, ins []edgeIn) (*State, string) {
 	}
 	postAlloc := c.heapGet(s1, "alloc", allocSort)
 	if postAlloc != preAlloc {
-		c.smt.assume(fmt.Sprintf("(forall ((r Int)) (! (=> (select %s r) (select %s r)) :pattern ((select %s r))))", preAlloc, postAlloc, postAlloc), "allocation only grows")
+		c.smt.assume(fmt.Sprintf("(forall ((r Int)) (! (=> (select %s r) (select %s r)) :pattern ((select %s r)) :pattern ((select %s r))))", preAlloc, postAlloc, postAlloc, preAlloc), "allocation only grows")
 	}
 	// assume the invariant
 	if fr.contract != nil {
@@ -715,7 +716,7 @@ func (c *FnCtx) frameInv(st *State, h string) string {
 
 func (fr *Frame) checkFrameInvs(lp *Loop, st *State, reach, kind string) {
 	c := fr.c
-	eff := c.eng.loopEffects(fr.fn, lp)
+	eff := c.eng.loopEffects(fr.fn, lp, fr)
 	if eff.all {
 		return
 	}
